@@ -75,6 +75,21 @@ func judgeC18(c *core.Case, cfg *core.Config) core.Verdict {
 		return v
 	}
 	l, r := eval(src("lhs")), eval(src("rhs"))
+	// each side means the same with and without a declared environment (the closure scoping of the checker
+	// must agree with the one of the VM): both compilations that succeed must agree
+	if rejected == "" && l.err == nil {
+		other := []expr.Option{expr.Optimize(opt)}
+		if mode != "typed" {
+			other = append(other, expr.Env(core.Env{}))
+		}
+		if p2, err := compile(src("lhs"), other...); err == nil {
+			var log2 []string
+			if out2, err2 := run(p2, spec.Build(&log2)); err2 == nil && !core.Equiv(l.val, out2) {
+				v.Violation = fmt.Sprintf("[%s opt=%v] %s means %s compiled %s and %s compiled the other way", ident, opt, src("lhs"), core.Show(l.val), mode, core.Show(out2))
+				return v
+			}
+		}
+	}
 	if rejected != "" {
 		// a side the checker rejects (conservative typing of dynamic operands) cannot be related
 		v.Skip = "rejected-at-compile-time"
@@ -331,10 +346,39 @@ func genC18(t *rapid.T, cfg *core.Config) *core.Case {
 	}
 	switch ident {
 	case "all/any", "none/any", "one/count", "count/filter", "filter-mask":
-		xs := g.AnySeq(d)
+		var outer *core.X
+		if ident != "filter-mask" && rapid.IntRange(0, 2).Draw(t, "nested") == 0 {
+			// the whole instance sits in the closure of an outer map: the collection (and the predicate) of the
+			// inner builtins may depend on the outer element (`count(1..#, ...)`, `all(#, ...)` over a grid row)
+			outer = g.AnySeq(d)
+		}
+		var xs, p *core.X
+		mk := func() {
+			xs = g.AnySeq(d)
+			if outer != nil && outer.Ty.Elem.IsSeq() && rapid.Bool().Draw(t, "row") {
+				xs = ptrOf(outer.Ty.Elem)
+			} else if outer != nil && outer.Ty.Elem.K == core.KInt && rapid.Bool().Draw(t, "rng") {
+				xs = core.Bin("..", core.LitInt(rapid.IntRange(0, 2).Draw(t, "rlo")), ptrOf(core.TInt), core.TInts)
+			}
+			p = g.Body(xs.Ty.Elem, core.TBool, d)
+		}
+		if outer != nil {
+			g.WithClos(outer.Ty.Elem, mk)
+		} else {
+			mk()
+		}
 		xskind = xs.K + ":" + xs.Ty.String()
-		p := g.Body(xs.Ty.Elem, core.TBool, d)
-		c.P["mask"] = pr(core.Builtin("map", xs, p, core.SeqOf(core.TBool, core.RepIface)))
+		if outer != nil {
+			xskind = "nested:" + xskind
+			inner := set
+			set = func(lhs, rhs *core.X) {
+				inner(core.Builtin("map", outer, lhs, core.SeqOf(lhs.Ty, core.RepIface)), core.Builtin("map", outer, rhs, core.SeqOf(rhs.Ty, core.RepIface)))
+			}
+			eqOK = false
+		}
+		if outer == nil {
+			c.P["mask"] = pr(core.Builtin("map", xs, p, core.SeqOf(core.TBool, core.RepIface)))
+		}
 		switch ident {
 		case "all/any":
 			set(core.Builtin("all", xs, p, core.TBool), not(core.Builtin("any", xs, not(p), core.TBool)))
